@@ -127,6 +127,37 @@ pub fn grid(seed: u64, tier: Tier) -> Vec<(String, Logical)> {
         };
         out.push((format!("m-{}-{}-sparse-ids-dir-not-first", packaging.name(), comp.name()), logical));
     }
+    // an "alternative" content pack (second pack with the id of pack 1), a duplicated index name,
+    // and a concatenated container whose loose source files still sit at the recorded locations
+    for (j, (tag, packaging, opts)) in [
+        ("alternative-pack", Packaging::Loose, LogicalOpts { alternative_of_pack1: true, ..Default::default() }),
+        ("alternative-pack", Packaging::Concat, LogicalOpts { alternative_of_pack1: true, dup_index_name: true, ..Default::default() }),
+        ("loose-beside", Packaging::Concat, LogicalOpts { keep_loose_beside: true, ..Default::default() }),
+        ("dup-index-name", Packaging::Loose, LogicalOpts { dup_index_name: true, ..Default::default() }),
+    ]
+    .into_iter()
+    .enumerate()
+    {
+        let mut rng = Rng::derive(seed, "grid-format-freedoms", k);
+        k += 1;
+        let comp = [Comp::None, Comp::Zstd(5), Comp::Lz4(3), Comp::None][j];
+        let logical = Logical {
+            comp,
+            packaging,
+            n_packs: 2,
+            contents: contents_small(&mut rng, 6, 90, if comp == Comp::None { Hint::No } else { Hint::Yes }, 2),
+            schema: SchemaSpec {
+                key_prefix: 1,
+                store: StoreKind::Plain,
+                variants: false,
+                key_pad: 0,
+            },
+            dedup: false,
+            aux_seed: rng.next_u64(),
+            opts,
+        };
+        out.push((format!("m-{}-{}-{tag}", packaging.name(), comp.name()), logical));
+    }
     // packs that can only be found by uuid inside the file at hand (every recorded location is
     // empty), and a container that stores one pack twice
     for (j, (tag, opts)) in [
